@@ -19,6 +19,25 @@ def cfg(name, ops, vers, keys, crash=0, sequential=False, validate=False, known=
     return path
 
 
+def crash_states(c, name, **kw):
+    """all (ex, ct) the model can be left in when process 1 crashes (snapshots, as canonical JSON strings)"""
+    import json
+    path = cfg("cs_" + name, invariants=(), **kw)
+    txt = open(path).read().replace("CHECK_DEADLOCK", "CONSTRAINT EmitCrash\nCHECK_DEADLOCK")
+    open(path, "w").write(txt)
+    r = tlc.run("MCFS", path, workers=1, timeout=600)
+    c.add_tlc("CacheFS-crash-states[%s]" % name, r)
+    out = set()
+    for st in tlc.printed_json(r):
+        out.add(canon(st["ex"], st["ct"]))
+    return out
+
+
+def canon(ex, ct):
+    import json
+    return json.dumps([sorted(["/".join(map(str, x)) for x in ex]), sorted(["/".join(map(str, x)), list(v)] for x, v in ct)])
+
+
 def run(c, name, must_hold=True, **kw):
     return c.model_check("CacheFS[%s]" % name, "MCFS", cfg(name, **kw), must_hold=must_hold, workers=16, timeout=1500)
 
